@@ -248,7 +248,7 @@ impl BincodeOptions {
 /// `get_checksums_file_path` (storage.rs): `<project_dir>/.zinoma/<target>.checksums` — string formatting, assumed
 //@fn src/engine/incremental/storage.rs get_checksums_file_path assumed ret=r
 //@contract
-    ensures /*[C18.path]*/ r == state_path(target.project_dir, target.id),
+    ensures /*[C18.path,C02.record-kept]*/ r == state_path(target.project_dir, target.id),
 //@end
 
 /// `work_dir::get_work_dir_path`
@@ -348,7 +348,7 @@ pub fn serialize_into(f: StdFile, s: &TargetEnvState, Tracked(w): Tracked<&mut W
 //@fn src/engine/incremental/storage.rs save_env_state#closure0 as=save_closure params=`file_path: PathBuf, target_id: TargetId, env_state: TargetEnvState` rty=`Result<()>` ret=r
 //@contract
     ensures
-        /*[C03.record]*/ r is Ok ==> final(w).store == old(w).store.insert(file_path, Stored::State(env_state.view())),
+        /*[C03.record,C02.record-kept]*/ r is Ok ==> final(w).store == old(w).store.insert(file_path, Stored::State(env_state.view())),
         /*[C05.write-on-success-only]*/ r is Err ==> final(w).store == old(w).store || final(w).store == old(w).store.insert(file_path, Stored::Garbage),
         *final(w) == (World { store: final(w).store, ..*old(w) }),
 //@end
@@ -357,7 +357,7 @@ pub fn serialize_into(f: StdFile, s: &TargetEnvState, Tracked(w): Tracked<&mut W
 //@closure 0 skeleton=`task::spawn_blocking(<CLOSURE>).await` becomes=`save_closure(file_path, target_id, env_state, Tracked(w))`
 //@contract
     ensures
-        /*[C03.record,C18.frame-save]*/ r is Ok ==> final(w).store == old(w).store.insert(state_path(target.project_dir, target.id), Stored::State(env_state.view())),
+        /*[C03.record,C02.record-kept,C18.frame-save]*/ r is Ok ==> final(w).store == old(w).store.insert(state_path(target.project_dir, target.id), Stored::State(env_state.view())),
         /*[C05.write-on-success-only,C18.frame-save]*/ r is Err ==> final(w).store == old(w).store || final(w).store == old(w).store.insert(state_path(target.project_dir, target.id), Stored::Garbage),
         *final(w) == (World { store: final(w).store, ..*old(w) }),
 //@end
@@ -803,7 +803,7 @@ impl ResourcesState {
 //@fn src/engine/incremental/mod.rs TargetEnvState::eq_current_state::eq as=eq_opt ret=r
 //@contract
     ensures *final(w) == *old(w),
-        /*[C02.in-and-out]*/ r == (resources matches Some(res) ==> (env_state matches Some(st) && rs_unchanged(st.view(), old(w).snap, *res))),
+        /*[C02.in-and-out,C03.reflexive,C13.decision]*/ r == (resources matches Some(res) ==> (env_state matches Some(st) && rs_unchanged(st.view(), old(w).snap, *res))),
 //@end
 
 impl TargetEnvState {
@@ -827,8 +827,8 @@ impl TargetEnvState {
 //@lsubst eq => eq_opt
 //@contract
     ensures *final(w) == *old(w),
-        /*[C02.in-and-out]*/ r ==> env_unchanged(self.view(), old(w).snap, *target_input, target_output),
-        /*[C03.reflexive]*/ env_unchanged(self.view(), old(w).snap, *target_input, target_output) ==> r,
+        /*[C02.in-and-out,C13.decision]*/ r ==> env_unchanged(self.view(), old(w).snap, *target_input, target_output),
+        /*[C03.reflexive,C13.decision]*/ env_unchanged(self.view(), old(w).snap, *target_input, target_output) ==> r,
 //@end
 }
 
